@@ -423,6 +423,13 @@ DIRECTED = [
      "prop": "A & B --> A", "steps": [], "goal_id": "1", "facts": [["0"], []]},
     {"name": "rewrite-fact-closes-goal", "theory": "logic", "vars": {"A": "bool"},
      "prop": "~~A --> A", "steps": [], "goal_id": "1", "facts": [["0"], []]},
+    # an earlier visible line states a subgoal's proposition under a hypothesis the goal lacks (cut, then
+    # revert_intro): it does not prove the subgoal, which has to stay open
+    {"name": "earlier-line-with-foreign-hypothesis", "theory": "logic", "vars": {"X": "bool", "C": "bool", "B": "bool"},
+     "prop": "~X --> C --> B",
+     "steps": [{"method_name": "cut", "goal_id": "2", "fact_ids": [], "goal": "X"},
+               {"method_name": "revert_intro", "goal_id": "3", "fact_ids": ["1"]}],
+     "goal_id": "2", "facts": [["0"], [], ["1"], ["0", "1"]]},
     {"name": "conditional-rewrite-with-and-without-its-condition", "theory": "logic", "vars": {"P": "bool", "a": "'a", "b": "'a"},
      "prop": "P --> (if P then a else b) = a", "steps": [], "goal_id": "1", "facts": [[], ["0"], []]},
 ]
